@@ -880,6 +880,9 @@ mod os {
                     posix::dup2(stdin.as_raw_fd(), 0)?;
                 } else {
                     posix::clear_cloexec(0)?;
+                    // The descriptor already is the child's stdin: it must
+                    // not be closed when this last reference goes away.
+                    std::mem::forget(stdin);
                 }
             }
             if let Some(stdout) = stdout {
@@ -887,6 +890,9 @@ mod os {
                     posix::dup2(stdout.as_raw_fd(), 1)?;
                 } else {
                     posix::clear_cloexec(1)?;
+                    // The descriptor already is the child's stdout: it must
+                    // not be closed when this last reference goes away.
+                    std::mem::forget(stdout);
                 }
             }
             if let Some(stderr) = stderr {
@@ -894,6 +900,9 @@ mod os {
                     posix::dup2(stderr.as_raw_fd(), 2)?;
                 } else {
                     posix::clear_cloexec(2)?;
+                    // The descriptor already is the child's stderr: it must
+                    // not be closed when this last reference goes away.
+                    std::mem::forget(stderr);
                 }
             }
             posix::reset_sigpipe()?;
